@@ -241,3 +241,143 @@ def run(chk):
                                 (d[1] == "Gt" and desc_contains(d[3], lambda y: y[0] == "call" and y[1].endswith("SystemTime::elapsed")) and desc_contains(d[2], lambda y: y[0] == "field")))
         chk.ob("R7.strict", vb.path, "valid() == (now < expiry), strictly, with now from the system clock", ok,
                f"valid() computes {panics.short_desc(d)}: a session created with lifetime 0 must be born expired")
+    db_lookup(chk, prog)
+
+
+EQ = r"^std::cmp::PartialEq::eq$|as std::cmp::PartialEq(<[^>]*>)?>::eq$"
+
+
+def _bool_defs(body, l, seen=None):
+    """Definitions of a bool local, following plain copies."""
+    seen = set() if seen is None else seen
+    out = []
+    for d in body.defs().get(l, []):
+        if d[2] == "assign" and d[3]["rv"]["k"] == "use" and core.op_local(d[3]["rv"]["o"]) is not None and not d[3]["rv"]["o"]["pl"]["p"]:
+            src = core.op_local(d[3]["rv"]["o"])
+            if (body.path, src) not in seen:
+                seen.add((body.path, src))
+                out += _bool_defs(body, src, seen)
+        else:
+            out.append(d)
+    return out
+
+
+def implies_equality(prog, body, l, side_a, side_b, depth=0):
+    """Every way local `l` (a bool) can become true is a full `==` between something satisfying side_a and something
+    satisfying side_b (in either order).  Returns (ok, reason).  Accepted idioms: `false`; PartialEq::eq; `a && b` lowered to a
+    switch (one definition per arm); a & b (either conjunct suffices); Option::map_or(false, f) / is_some_and(f) /
+    map(f).unwrap_or(false) with f recursively checked; a call to a local helper whose result is recursively checked."""
+    if depth > 6:
+        return False, "comparison nested too deeply to follow"
+    defs = _bool_defs(body, l)
+    if not defs:
+        return False, f"no definition found for the match result in {core.short(body.path)}"
+    for d in defs:
+        if d[2] == "assign":
+            rv = d[3]["rv"]
+            if rv["k"] == "use" and rv["o"].get("k") == "const":
+                if rv["o"].get("v") is False:
+                    continue
+                return False, f"the match result is the constant {rv['o'].get('v')}"
+            if rv["k"] == "bin" and rv.get("op") == "BitAnd":
+                oks = []
+                for o in (rv["l"], rv["r"]):
+                    ol = core.op_local(o)
+                    oks.append(ol is not None and implies_equality(prog, body, ol, side_a, side_b, depth + 1)[0])
+                if any(oks):
+                    continue
+            return False, f"the match result is computed by {rv['k']}{'/' + str(rv.get('op')) if rv.get('op') else ''}, not by a string equality"
+        if d[2] != "call":
+            return False, "the match result does not come from a comparison"
+        t = d[3]
+        callee = t.get("callee") or ""
+        if core.re.search(EQ, callee):
+            tys = " ".join(t.get("arg_tys", []))
+            if not core.re.search(r"\bString\b|\bstr\b", tys):
+                return False, f"equality on {tys}, not on the strings"
+            a = panics._strip(describe(prog, body, t["args"][0]))
+            b = panics._strip(describe(prog, body, t["args"][1]))
+            if (side_a(body, a) and side_b(body, b)) or (side_a(body, b) and side_b(body, a)):
+                continue
+            return False, f"eq({panics.short_desc(a)}, {panics.short_desc(b)}) does not compare the stored value with the presented one"
+        r = t.get("resolved")
+        if core.re.search(r"Option::<T>::(map_or|is_some_and|unwrap_or)$", callee):
+            dd = describe_r(prog, body, t["dest"]["l"])
+            cls = [y[1] for y in _nodes(dd) if y[0] == "closure" and y[1] in prog.bodies]
+            if callee.endswith("unwrap_or") or callee.endswith("map_or"):
+                dflt = describe(prog, body, t["args"][1])
+                if dflt != ("lit", False):
+                    return False, f"default of {callee.split('::')[-1]} is {panics.short_desc(dflt)}, not false"
+            if not cls:
+                return False, f"{callee.split('::')[-1]} without a predicate closure"
+            for c in cls:
+                ok, why = implies_equality(prog, prog.bodies[c], 0, side_a, side_b, depth + 1)
+                if not ok:
+                    return ok, why
+            continue
+        if r and r in prog.bodies and prog.bodies[r].local_ty(0) == "bool":
+            ok, why = implies_equality(prog, prog.bodies[r], 0, side_a, side_b, depth + 1)
+            if not ok:
+                return ok, why
+            continue
+        return False, f"the match is decided by {core.short(callee)}, which is not a full string equality (a prefix / length-blind / hashed comparison accepts tokens that were never issued)"
+    return True, ""
+
+
+def db_lookup(chk, prog):
+    """R8: the example database (Vec<User>) identifies users / sessions by full string equality."""
+    us = prog.structs.get("humphrey_auth::user::User", {}).get("fields", [])
+    ss = prog.structs.get("humphrey_auth::session::Session", {}).get("fields", [])
+    ui = {x["name"]: i for i, x in enumerate(us)}
+    si = {x["name"]: i for i, x in enumerate(ss)}
+    chk.floor("User / Session field tables", len(ui) + len(si), 5)
+    if "uid" not in ui or "session" not in ui or "token" not in si:
+        return
+
+    def has_upvar(d):
+        return desc_contains(d, lambda y: y[0] == "upvar")
+
+    def _param_ty(body, y, want):
+        return y[0] == "param" and want in (body.local_ty(y[1]) or "")
+
+    def stored_token(body, d):
+        # <entry>.session.<..>.token, or <a Session reached from the entry>.token inside a nested closure / helper
+        return not has_upvar(d) and desc_contains(d, lambda y: y[0] == "field" and y[2] == si["token"] and (
+            desc_contains(y[1], lambda z: z[0] == "field" and z[2] == ui["session"]) or _param_ty(body, y[1], "session::Session")))
+
+    def stored_uid(body, d):
+        return not has_upvar(d) and desc_contains(d, lambda y: y[0] == "field" and y[2] == ui["uid"] and _param_ty(body, y[1], "user::User"))
+
+    def presented(body, d):
+        # the value the caller presented: captured by the predicate closure (or a helper's own parameter), never a stored field
+        return (has_upvar(d) or desc_contains(d, lambda y: y[0] == "param")) and not stored_token(body, d) and not stored_uid(body, d)
+
+    base = "<std::vec::Vec<humphrey_auth::user::User> as humphrey_auth::database::AuthDatabase>::"
+    n = 0
+    for m, stored, pres, what in (("get_user_by_token", stored_token, presented, "token"), ("get_session_by_token", stored_token, presented, "token"),
+                                  ("get_user_by_uid", stored_uid, presented, "uid"), ("update_user", stored_uid, presented, "uid")):
+        b = prog.bodies.get(base + m)
+        if not b:
+            continue
+        finds = b.calls_to(r"Iterator>::find$|Iterator::find$|Iterator>::position$|Iterator::position$")
+        for blk, t in finds:
+            d = describe(prog, b, t["args"][-1])
+            cls = [y[1] for y in _nodes(d) if y[0] == "closure" and y[1] in prog.bodies]
+            for c in cls:
+                n += 1
+                cb = prog.bodies[c]
+                ok, why = implies_equality(prog, cb, 0, stored, pres)
+                chk.ob("R8.db_lookup", base + m, f"{m}: an entry matches only if its stored {what} == the presented {what} (whole-string equality)", ok, why,
+                       where=f"{cb.file}:{cb.line}")
+    chk.floor("Vec<User> lookup predicates", n, 4)
+    rb = prog.bodies.get(base + "remove_user")
+    if rb:
+        for blk, t in rb.calls_to(r"Vec::<T, A>::retain$"):
+            d = describe(prog, rb, t["args"][-1])
+            for c in [y[1] for y in _nodes(d) if y[0] == "closure" and y[1] in prog.bodies]:
+                cb = prog.bodies[c]
+                calls = [tt["callee"] for _, tt in cb.calls()]
+                ne = [x for x in calls if core.re.search(r"PartialEq(<[^>]*>)?(>)?::ne$", x)]
+                others = [x for x in calls if not core.re.search(r"PartialEq(<[^>]*>)?(>)?::ne$|AsRef::as_ref$|Deref::deref$", x)]
+                chk.ob("R8.db_lookup", base + "remove_user", "remove_user keeps exactly the entries whose uid != the given uid", len(ne) == 1 and not others,
+                       f"retain predicate calls {[core.short(x) for x in calls]}", where=f"{cb.file}:{cb.line}")
